@@ -190,6 +190,26 @@ func checkComplete(w world.World) error {
 		if got.String() != sel.Real {
 			return fmt.Errorf("RegistryPackageSourceAddr(%s, %s) = %s, the registry supplied %s", sel.Pkg, sel.Version, got, sel.Real)
 		}
+		// the registry's deprecation note for exactly that version
+		if rp := regOf(w, sel.Pkg); rp != nil {
+			for _, rv := range rp.Versions {
+				if rv.V != sel.Version {
+					continue
+				}
+				dep := b.RegistryPackageVersionDeprecation(rpa, v)
+				if dep == nil {
+					dep = b.RegistryPackageVersionDeprecation(rpa, v.Comparable())
+				}
+				switch {
+				case rv.Deprecation == nil && dep != nil:
+					return fmt.Errorf("%s %s: the bundle holds the deprecation note %q, the registry attached none", sel.Pkg, sel.Version, dep.Reason)
+				case rv.Deprecation != nil && dep == nil:
+					return fmt.Errorf("%s %s: the registry's deprecation note %q is not retrievable from the bundle", sel.Pkg, sel.Version, rv.Deprecation.Reason)
+				case rv.Deprecation != nil && (dep.Reason != rv.Deprecation.Reason || dep.Link != rv.Deprecation.Link):
+					return fmt.Errorf("%s %s: deprecation note (%q, %q) retrieved, the registry supplied (%q, %q)", sel.Pkg, sel.Version, dep.Reason, dep.Link, rv.Deprecation.Reason, rv.Deprecation.Link)
+				}
+			}
+		}
 		found := false
 		for _, bv := range b.RegistryPackageVersions(rpa) {
 			if bv.Same(v) {
